@@ -89,8 +89,8 @@ impl Watcher {
         }
         Some(w)
     }
-    /// the objects opened since the last call, in order
-    fn drain(&mut self) -> Vec<X> {
+    /// the objects opened since the last call, in order; `None`: the kernel's event queue overflowed (harness trouble)
+    fn drain(&mut self) -> Option<Vec<X>> {
         let mut out = Vec::new();
         let mut buf = [0u8; 16384];
         loop {
@@ -108,8 +108,7 @@ impl Watcher {
                 let name = &name[..name.iter().position(|c| *c == 0).unwrap_or(name.len())];
                 p += 16 + len;
                 if mask & libc::IN_Q_OVERFLOW != 0 {
-                    out.push(X::b("<overflow>"));
-                    continue;
+                    return None;
                 }
                 if mask & libc::IN_OPEN == 0 {
                     continue;
@@ -133,7 +132,7 @@ impl Watcher {
                 out.push(X::B(full));
             }
         }
-        out
+        Some(out)
     }
 }
 impl Drop for Watcher {
@@ -522,7 +521,7 @@ fn run(x: &X, mode: Mode) -> Option<Option<X>> {
                 // the handshake comes first, so that it is not part of what the first request opens
                 h2.send = Some(H2::open(front.as_ref()?).await?);
             }
-            watcher.drain();
+            watcher.drain()?;
             let markers = std::env::var_os(MARKERS_ENV).is_some();
             let mut nreq = 0usize;
             for op in &ops {
@@ -547,7 +546,7 @@ fn run(x: &X, mode: Mode) -> Option<Option<X>> {
                                         let (decoded, ok) = pipe::decode_body(enc.as_deref(), reply.response.body());
                                         if !ok {
                                             out.push(X::L(vec![X::N(95)]));
-                                            watcher.drain();
+                                            watcher.drain()?;
                                             continue;
                                         }
                                         let reason = reply.response.headers().get("reason").map(|v| v.as_bytes().to_vec());
@@ -558,7 +557,7 @@ fn run(x: &X, mode: Mode) -> Option<Option<X>> {
                             Mode::H1 => h1.exchange(front.as_ref()?, method, target, *kind).await?,
                             Mode::H2 => h2.exchange(front.as_ref()?, method, target, *kind).await?,
                         };
-                        let opened = watcher.drain();
+                        let opened = watcher.drain()?;
                         out.push(match answer {
                             None => X::L(vec![X::N(96)]),
                             Some((status, body)) => {
@@ -662,6 +661,21 @@ fn sys(x: &X) -> Option<Option<X>> {
         .stderr(std::process::Stdio::null())
         .spawn();
     let Ok(mut child) = child else { return Some(None) };
+    // a traced child that does not finish (it never should take more than seconds) is killed: harness trouble
+    let done = Arc::new(std::sync::atomic::AtomicBool::new(false));
+    {
+        let done = Arc::clone(&done);
+        let pid = child.id() as i32;
+        std::thread::spawn(move || {
+            for _ in 0..1800 {
+                std::thread::sleep(Duration::from_millis(100));
+                if done.load(Ordering::SeqCst) {
+                    return;
+                }
+            }
+            unsafe { libc::kill(pid, libc::SIGKILL) };
+        });
+    }
     let mut line = String::from("s pathsanpipe.run ");
     x.write(&mut line);
     line.push('\n');
@@ -673,6 +687,7 @@ fn sys(x: &X) -> Option<Option<X>> {
     let _ = child.stdout.take()?.read_to_string(&mut outp);
     let _ = writer.join();
     let ok = child.wait().map_or(false, |s| s.success());
+    done.store(true, Ordering::SeqCst);
     let trace = std::fs::read(&log).unwrap_or_default();
     let _ = std::fs::remove_file(&log);
     if !ok {
